@@ -27,6 +27,9 @@ def finding_key(req, obs, detail):
     d = re.sub(r":\d+:", ":", d)          # panic line numbers move with unrelated edits
     d = re.sub(r"panic \S*?((?:msl|ir|typer|parser|formatter|preprocess|text|ast|hlsl)/src/)", r"panic \1", d)
     first = d.split(" ## ")[0]
+    if first.startswith("class:"):
+        # semantic stream: a difference attributed to one of the described readings (see notes/C02.md) is keyed by its class
+        return first
     return f"{req} :: {first}"
 
 
